@@ -80,6 +80,8 @@ def check(m, run):
     skel_drivers.c03_order(m, run)
     from .. import rules_state as rs
     rs.iv4_deepcopy(m, run)
+    _sd.sc2(m, run)        # the pieces get their control points through set_ctrlpts: stored as given, whatever the precision
+    _sd.kd5(m, run)        # ... and split_surface reads the 2-D view: [u][v] of the view is the point stored at v + size_v * u
     from . import c17 as _c17
     _c17.domain_getter(m, run)      # the split guards compare the parameter with the ends of the domain the getter reports (DG2, shared with C17)
 
